@@ -12,6 +12,8 @@ import json
 import math
 import sys
 import traceback
+
+sys.set_int_max_str_digits(0)
 from fractions import Fraction
 
 
